@@ -5,6 +5,7 @@
 -/
 import PydapModel.RowHeap
 import PydapModel.Sched
+import PydapModel.RequestRows
 namespace Pydap.RowHeap
 open Pydap.Sched
 
@@ -276,32 +277,6 @@ theorem serveRows_frame (fs : List RFilt) (ms : List RMap) (stream : List PVal) 
 
 /-! ### the evaluation as a thread program of the machine of `Sched.lean` -/
 
-/-- a location of the shared machine: `(none, i)` the `i`-th source object, `(some t, i)` the `i`-th object
-    allocated by request `t` -/
-abbrev GLoc := Option Nat × Nat
-
-def gloc (t : Nat) : Loc → GLoc
-  | .src i => (none, i)
-  | .own i => (some t, i)
-
-abbrev RVal := List String
-
-def Store.toStep (t : Nat) (s : Store) : Step GLoc RVal RVal String :=
-  { reads := s.reads.map (gloc t), writes := [gloc t s.target],
-    act := fun vs => .ok ([("setitem[" ++ toString s.index ++ "]") :: vs.flatten], []) }
-
-/-- streaming the result: reads every object the stores read or wrote, outputs what it read -/
-def emitRows (t : Nat) (log : List Store) : Step GLoc RVal RVal String :=
-  { reads := (log.flatMap (·.reads) ++ log.map (·.target)).map (gloc t), writes := [],
-    act := fun vs => .ok ([], vs) }
-
-/-- request `t` evaluating its maps over the source records of the served sequence (its own region empty at
-    the start): the stores it reaches, then the emission -/
-def rowProgram (src : List PObj) (stream : List PVal) (filts : List RFilt) (maps : List RMap) (peeks : Nat) (t : Nat) :
-    List (Step GLoc RVal RVal String) :=
-  let o := serveRows filts maps ⟨src, []⟩ stream peeks
-  o.log.map (Store.toStep t) ++ [emitRows t o.log]
-
 theorem rowProgram_writes_owned (src : List PObj) (stream : List PVal) (filts : List RFilt) (maps : List RMap)
     (peeks t : Nat) : ∀ s ∈ rowProgram src stream filts maps peeks t, ∀ l ∈ s.writes, l.1 = some t := by
   intro s hs l hl
@@ -344,5 +319,58 @@ theorem rows_disciplined (src : List PObj) (stream : List PVal) (filts : Nat →
       have := rowProgram_writes_owned src stream (filts u) (maps u) (peeks u) u s' hs' l hw
       rw [h] at this
       cases this
+
+/-! ### a whole request: pipeline stores and source-record evaluation in one program -/
+
+theorem mem_mapLoc_writes {L L' V O E : Type} (f : L → L') (s : Step L V O E) (l : L') :
+    l ∈ (Step.mapLoc f s).writes ↔ ∃ x ∈ s.writes, f x = l := by
+  simp [Step.mapLoc]
+
+theorem mem_mapLoc_reads {L L' V O E : Type} (f : L → L') (s : Step L V O E) (l : L') :
+    l ∈ (Step.mapLoc f s).reads ↔ ∃ x ∈ s.reads, f x = l := by
+  simp [Step.mapLoc]
+
+/-- two disciplined program families over disjoint location types, run one after the other by each thread, are
+    a disciplined family over the sum of the location types -/
+theorem disciplined_join {L1 L2 V O E : Type} (o1 : L1 → Option Nat) (o2 : L2 → Option Nat)
+    (P1 : Nat → List (Step L1 V O E)) (P2 : Nat → List (Step L2 V O E))
+    (h1 : Disciplined o1 P1) (h2 : Disciplined o2 P2) :
+    Disciplined (Sum.elim o1 o2)
+      (fun t => (P1 t).map (Step.mapLoc Sum.inl) ++ (P2 t).map (Step.mapLoc Sum.inr)) := by
+  refine ⟨?_, ?_⟩
+  · intro t s hs l hl
+    simp only [List.mem_append, List.mem_map] at hs
+    rcases hs with ⟨s1, hs1, rfl⟩ | ⟨s2, hs2, rfl⟩
+    · obtain ⟨x, hx, rfl⟩ := (mem_mapLoc_writes _ _ _).mp hl
+      exact h1.writes_owned t s1 hs1 x hx
+    · obtain ⟨x, hx, rfl⟩ := (mem_mapLoc_writes _ _ _).mp hl
+      exact h2.writes_owned t s2 hs2 x hx
+  · intro t s hs l hl
+    simp only [List.mem_append, List.mem_map] at hs
+    rcases hs with ⟨s1, hs1, rfl⟩ | ⟨s2, hs2, rfl⟩
+    · obtain ⟨x, hx, rfl⟩ := (mem_mapLoc_reads _ _ _).mp hl
+      rcases h1.reads_ok t s1 hs1 x hx with h | h
+      · exact Or.inl h
+      · right
+        intro u s' hs' hw
+        simp only [List.mem_append, List.mem_map] at hs'
+        rcases hs' with ⟨s1', hs1', rfl⟩ | ⟨s2', hs2', rfl⟩
+        · obtain ⟨y, hy, hxy⟩ := (mem_mapLoc_writes _ _ _).mp hw
+          cases hxy
+          exact h u s1' hs1' hy
+        · obtain ⟨y, _, hxy⟩ := (mem_mapLoc_writes _ _ _).mp hw
+          cases hxy
+    · obtain ⟨x, hx, rfl⟩ := (mem_mapLoc_reads _ _ _).mp hl
+      rcases h2.reads_ok t s2 hs2 x hx with h | h
+      · exact Or.inl h
+      · right
+        intro u s' hs' hw
+        simp only [List.mem_append, List.mem_map] at hs'
+        rcases hs' with ⟨s1', hs1', rfl⟩ | ⟨s2', hs2', rfl⟩
+        · obtain ⟨y, _, hxy⟩ := (mem_mapLoc_writes _ _ _).mp hw
+          cases hxy
+        · obtain ⟨y, hy, hxy⟩ := (mem_mapLoc_writes _ _ _).mp hw
+          cases hxy
+          exact h u s2' hs2' hy
 
 end Pydap.RowHeap
